@@ -640,6 +640,13 @@ _ITYPE_MEASURE = {"cell": "dx", "exterior_facet": "ds", "interior_facet": "dS", 
 
 def compute_form_data(form, scalar_type="float64"):
     cm = np.issubdtype(np.dtype(scalar_type), np.complexfloating)
+    from .kernels import time_limit
+
+    with time_limit(150):
+        return _compute_form_data(form, cm)
+
+
+def _compute_form_data(form, cm):
     return ufl.algorithms.compute_form_data(
         form,
         do_apply_function_pullbacks=True,
@@ -833,8 +840,12 @@ def expression_reference(expr, points, cellname, coef_data, const_data, x, entit
     E = np.zeros(full)
     for k, comp in enumerate(np.ndindex(*shape) if shape else [()]):
         val = evaluate(low, ctx, tol, comp=comp)
-        v = np.broadcast_to(val.v, (P, ndofs if ndofs is not None else 1, 1))[:, :, 0]
-        e = np.broadcast_to(val.e, (P, ndofs if ndofs is not None else 1, 1))[:, :, 0]
+        vv, ee = np.asarray(val.v), np.asarray(val.e)
+        if vv.ndim == 3 and vv.shape[2] > 1:  # the argument is a trial function (number 1): dof axis last
+            vv = np.transpose(vv, (0, 2, 1))
+            ee = np.transpose(np.broadcast_to(ee, val.v.shape), (0, 2, 1))
+        v = np.broadcast_to(vv, (P, ndofs if ndofs is not None else 1, 1))[:, :, 0]
+        e = np.broadcast_to(ee, (P, ndofs if ndofs is not None else 1, 1))[:, :, 0]
         if ndofs is None:
             A[:, k] = v[:, 0]
             E[:, k] = e[:, 0]
